@@ -153,7 +153,7 @@ def _run(ctx, rep):
             if name in ('write_bytes', 'write', 'write_u8', 'write_u16', 'write_u32', 'write_u64'):
                 off = P['offset']; ln = seqlen(P['data'].place.get().segs) if name == 'write_bytes' else C(SIZES.get(variant) or {'write_u8': 1, 'write_u16': 2, 'write_u32': 4, 'write_u64': 8}.get(name, 0))
                 want = cmp('le', add(off, ln), old)
-                ok = any(equal(ite(g['cond'], ONE, ZERO), ite(want, ONE, ZERO))[0] for g in I.guards if g['kind'] == 'assert')
+                ok = any(equal(ite(g['cond'], ONE, ZERO), ite(want, ONE, ZERO))[0] for g in I.guards if g['kind'] == 'assert') or refused(I.guards, want)
                 rep.ob('refusal', subj + ':bounds', ok, '%s does not refuse a write that would end past the table (offset + len <= len(data))' % name, sp=b['sp'],
                        detail={'guards': [show(g['cond']) for g in I.guards], 'required': show(want)})
     rep.floor('Sdt public operations (typed variants expanded)', n_ops, 14)
